@@ -21,10 +21,12 @@ def loop_body_paths(fn, loop: ast.While, is_event):
 
 
 def check(repo: Repo, rep: Report) -> None:
+    from .C28 import vts_roles
+    Q, CLK, LK, EN = vts_roles(repo)
     rep.explanation = (
         "Termination is undecidable in general; decided are necessary conditions visible in the code: (a) no "
-        "self-deadlock — inside a region holding the non-reentrant threading.Lock `_lock`, no self member is used that "
-        "(transitively, through methods and property getters of the class family) takes `_lock` again; (b) no store to "
+        f"self-deadlock — inside a region holding the non-reentrant threading.Lock `{LK}`, no self member is used that "
+        f"(transitively, through methods and property getters of the class family) takes `{LK}` again; (b) no store to "
         "a property without a setter anywhere in the package; (c) progress — every path through an iteration of the "
         "run loops of start()/advance_to() either leaves the loop or dequeues one item; (d) the enabled flag is tested "
         "and set at entry in one locked region and reset on every normal exit, so a drained scheduler can be started again.")
@@ -33,17 +35,17 @@ def check(repo: Repo, rep: Report) -> None:
     rep.rule("A-no-reacquire", "no use, while holding the non-reentrant lock, of a self member that takes it again", floor=5)
     rep.rule("B-readonly-property", "no store to a property that has no setter (package-wide)", floor=1)
     rep.rule("C-progress", "each run-loop iteration path exits the loop or dequeues", floor=4)
-    rep.rule("E-clock-kind", "every clock update after construction is decided by isinstance(self._clock, datetime) and uses the "
+    rep.rule("E-clock-kind", f"every clock update after construction is decided by isinstance(self.{CLK}, datetime) and uses the "
                              "arithmetic of that clock kind (a numeric bump on a datetime clock raises in the middle of a run)", floor=6)
     rep.rule("D-enabled-flag", "enabled flag: test-and-set at entry under the lock, reset on every normal exit", floor=4)
     cls = repo.fn(V, "VirtualTimeScheduler")
-    kind = lock_kind(repo, cls, "_lock")
-    rep.require(kind is not None, "VirtualTimeScheduler._lock construction")
-    locks = {"self._lock"}
+    kind = lock_kind(repo, cls, f"{LK}")
+    rep.require(kind is not None, f"VirtualTimeScheduler.{LK} construction")
+    locks = {f"self.{LK}"}
     if kind in ("Lock", "Condition(Lock)"):
         bad = reacquire_sites(repo, cls, locks)
         n = locked_self_uses(repo, cls, locks)
-        rep.require(n >= 10, f"self uses under _lock ({n})")
+        rep.require(n >= 10, f"self uses under {LK} ({n})")
         seen = set()
         for m, s, w in bad:
             c = f"{m.name}: {short(s.stmt, 70)} uses {short(s.node, 30)}"
@@ -51,21 +53,21 @@ def check(repo: Repo, rep: Report) -> None:
                 continue
             seen.add(c)
             rep.ob("A-no-reacquire", m, c, False,
-                   f"while holding the non-reentrant `_lock` ({kind}), `{short(s.node)}` takes it again ({w}): the call "
+                   f"while holding the non-reentrant `{LK}` ({kind}), `{short(s.node)}` takes it again ({w}): the call "
                    f"never returns (self-deadlock) — start()/advance_to() hang")
         for i in range(n - len(seen)):
             pass
-        rep.ob("A-no-reacquire", cls, f"{n} self-member uses under _lock in {len(class_family(repo, cls))} classes", True)
+        rep.ob("A-no-reacquire", cls, f"{n} self-member uses under {LK} in {len(class_family(repo, cls))} classes", True)
         for k in class_family(repo, cls):
             for m in k.children:
                 if m.is_func:
-                    cnt = sum(1 for s in sites(m) if "self._lock" in s.ctx.locks and isinstance(s.node, ast.Attribute)
+                    cnt = sum(1 for s in sites(m) if f"self.{LK}" in s.ctx.locks and isinstance(s.node, ast.Attribute)
                               and dotted(s.node.value) == "self")
                     if cnt:
-                        rep.ob("A-no-reacquire", m, f"{m.name}: {cnt} self uses under _lock", True)
+                        rep.ob("A-no-reacquire", m, f"{m.name}: {cnt} self uses under {LK}", True)
     else:
-        rep.ob("A-no-reacquire", cls, f"_lock is re-entrant ({kind})", True)
-        rep.notes.append(f"_lock kind is {kind}: re-acquisition is harmless")
+        rep.ob("A-no-reacquire", cls, f"{LK} is re-entrant ({kind})", True)
+        rep.notes.append(f"{LK} kind is {kind}: re-acquisition is harmless")
     # (b)
     writes, n_props = readonly_property_writes(repo)
     rep.extra["properties_seen"] = n_props
@@ -82,7 +84,7 @@ def check(repo: Repo, rep: Report) -> None:
 
         def ev(n: ast.AST) -> Optional[str]:
             if isinstance(n, ast.Call) and isinstance(n.func, ast.Attribute) and n.func.attr == "dequeue" \
-                    and dotted(n.func.value) == "self._queue":
+                    and dotted(n.func.value) == f"self.{Q}":
                 return "DEQ"
             return None
         for lp in loops:
@@ -96,10 +98,10 @@ def check(repo: Repo, rep: Report) -> None:
     # (d) enabled flag
     for mname in ("start", "advance_to"):
         m = repo.fn(V, f"VirtualTimeScheduler.{mname}")
-        sets_true = [s for s in sites(m) if isinstance(s.node, ast.Assign) and any(u(t) == "self._is_enabled" for t in s.node.targets)
+        sets_true = [s for s in sites(m) if isinstance(s.node, ast.Assign) and any(u(t) == f"self.{EN}" for t in s.node.targets)
                      and isinstance(s.node.value, ast.Constant) and s.node.value.value is True]
-        ok = bool(sets_true) and all("self._lock" in s.ctx.locks and has_guard(s.ctx, "self._is_enabled", False) for s in sets_true)
-        rep.ob("D-enabled-flag", m, f"{mname}: test-and-set of _is_enabled under _lock", ok,
+        ok = bool(sets_true) and all(f"self.{LK}" in s.ctx.locks and has_guard(s.ctx, f"self.{EN}", False) for s in sets_true)
+        rep.ob("D-enabled-flag", m, f"{mname}: test-and-set of {EN} under {LK}", ok,
                "the enabled flag is not tested and set atomically at entry (re-entrant start would run the loop twice)")
         loops = [s for s in sites(m) if isinstance(s.node, ast.While)]
         last = loops[-1]
@@ -108,18 +110,18 @@ def check(repo: Repo, rep: Report) -> None:
             if s.index <= last.index or s.ctx.branch or s.ctx.loops:
                 continue
             n = s.node
-            if isinstance(n, ast.Assign) and any(u(t) == "self._is_enabled" for t in n.targets) \
+            if isinstance(n, ast.Assign) and any(u(t) == f"self.{EN}" for t in n.targets) \
                     and isinstance(n.value, ast.Constant) and n.value.value is False:
                 resets.append(s)
             if isinstance(n, ast.Call) and dotted(n.func) == "self.stop":
                 stop = repo.class_method(cls, "stop")
-                if stop is not None and any(isinstance(x.node, ast.Assign) and any(u(t) == "self._is_enabled" for t in x.node.targets)
+                if stop is not None and any(isinstance(x.node, ast.Assign) and any(u(t) == f"self.{EN}" for t in x.node.targets)
                                             and isinstance(x.node.value, ast.Constant) and x.node.value.value is False
                                             and not x.ctx.branch for x in sites(stop)):
                     resets.append(s)
         # the loop must only be left by `break` (falling to the reset), not by return
         rets_in_loop = [x for x in ast.walk(last.node) if isinstance(x, ast.Return)]
-        rep.ob("D-enabled-flag", m, f"{mname}: _is_enabled reset after the run loop", bool(resets) and not rets_in_loop,
+        rep.ob("D-enabled-flag", m, f"{mname}: {EN} reset after the run loop", bool(resets) and not rets_in_loop,
                "after the queue drained the enabled flag is not reset on every exit: the scheduler cannot be started again")
     # E: the clock is either a float or a datetime for the whole life of the scheduler
     vts = repo.fn(V, "VirtualTimeScheduler")
@@ -128,9 +130,9 @@ def check(repo: Repo, rep: Report) -> None:
     bumps = {True: [], False: []}
     for s_ in sites(st):
         n_ = s_.node
-        if isinstance(n_, ast.AugAssign) and isinstance(n_.op, ast.Add) and u(n_.target) == "self._clock":
+        if isinstance(n_, ast.AugAssign) and isinstance(n_.op, ast.Add) and u(n_.target) == f"self.{CLK}":
             for e, p_ in s_.ctx.guards:
-                if isinstance(e, ast.Call) and call_name(e) == "isinstance" and len(e.args) == 2 and u(e.args[0]) == "self._clock" and "datetime" in u(e.args[1]):
+                if isinstance(e, ast.Call) and call_name(e) == "isinstance" and len(e.args) == 2 and u(e.args[0]) == f"self.{CLK}" and "datetime" in u(e.args[1]):
                     positive = not (isinstance(n_.value, ast.Constant) and not n_.value.value)
                     if positive:
                         bumps[p_].append(s_)
@@ -142,7 +144,7 @@ def check(repo: Repo, rep: Report) -> None:
         for s_ in sites(st):
             n_ = s_.node
             if isinstance(n_, ast.Assign) and u(n_.targets[0]) == cn and isinstance(n_.value, ast.Constant) and n_.value.value == 0 and s_.ctx.loops:
-                kinds_ = [p_ for e, p_ in s_.ctx.guards if isinstance(e, ast.Call) and call_name(e) == "isinstance" and len(e.args) == 2 and u(e.args[0]) == "self._clock"]
+                kinds_ = [p_ for e, p_ in s_.ctx.guards if isinstance(e, ast.Call) and call_name(e) == "isinstance" and len(e.args) == 2 and u(e.args[0]) == f"self.{CLK}"]
                 rep.ob("E-clock-kind", st, f"start(): `{short(n_)}` after a clock move is not specific to one clock kind", not kinds_,
                        f"the spin counter is reset only for {'datetime' if kinds_ and kinds_[0] else 'numeric'} clocks: on the other kind it keeps growing across "
                        f"ordinary time advances, so after 100 items every zero-delay action is taken for a busy spin and runs at a clock bumped "
@@ -158,17 +160,17 @@ def check(repo: Repo, rep: Report) -> None:
             n_ = s_.node
             if isinstance(n_, (ast.Assign, ast.AugAssign)):
                 t_ = n_.targets[0] if isinstance(n_, ast.Assign) else n_.target
-                if u(t_) != "self._clock":
+                if u(t_) != f"self.{CLK}":
                     continue
                 pol = None
                 for e, p_ in s_.ctx.guards:
-                    if isinstance(e, ast.Call) and call_name(e) == "isinstance" and len(e.args) == 2 and u(e.args[0]) == "self._clock" and "datetime" in u(e.args[1]):
+                    if isinstance(e, ast.Call) and call_name(e) == "isinstance" and len(e.args) == 2 and u(e.args[0]) == f"self.{CLK}" and "datetime" in u(e.args[1]):
                         pol = p_
                 v = n_.value
                 numeric = (isinstance(v, ast.Constant) and isinstance(v.value, (int, float))) or (isinstance(v, ast.Call) and dotted(v.func) == "self.to_seconds")
                 delta = isinstance(v, ast.Call) and call_name(v) == "timedelta"
                 ok = pol is not None and not (pol and numeric) and not ((not pol) and delta)
-                rep.ob("E-clock-kind", mth, f"{mth.name}: `{short(n_, 50)}` under isinstance(self._clock, datetime) = {pol}", ok,
+                rep.ob("E-clock-kind", mth, f"{mth.name}: `{short(n_, 50)}` under isinstance(self.{CLK}, datetime) = {pol}", ok,
                        f"VirtualTimeScheduler.{mth.name} updates the clock with `{short(n_, 50)}` without deciding on the clock's kind "
                        f"(or with the other kind's arithmetic): on a datetime (HistoricalScheduler) or numeric clock the statement "
                        f"raises TypeError in the middle of a run and the remaining actions never run")
